@@ -100,6 +100,8 @@ fn unsat_nlimbs_for_sat_nlimbs(saturated_nlimbs: usize) -> usize {
 pub(crate) fn gcd(f: &BoxedUint, g: &BoxedUint) -> BoxedUint {
     let nlimbs = unsat_nlimbs_for_sat_nlimbs(max(f.nlimbs(), g.nlimbs()));
     let bits_precision = f.bits_precision();
+    // the unsaturated limbs are sized for the wider operand: convert back at that precision
+    let wide_precision = max(bits_precision, g.bits_precision());
 
     let inverse = inv_mod2_62(f.as_words());
     let f = BoxedUnsatInt::from_uint_widened(f, nlimbs);
@@ -109,7 +111,7 @@ pub(crate) fn gcd(f: &BoxedUint, g: &BoxedUint) -> BoxedUint {
 
     let mut f = divsteps(&mut d, &e, &f, &mut g, inverse);
     f.conditional_negate(f.is_negative());
-    f.to_uint(bits_precision)
+    f.to_uint(wide_precision).shorten(bits_precision)
 }
 
 /// Returns the greatest common divisor (GCD) of the two given numbers.
@@ -118,6 +120,8 @@ pub(crate) fn gcd(f: &BoxedUint, g: &BoxedUint) -> BoxedUint {
 pub(crate) fn gcd_vartime(f: &BoxedUint, g: &BoxedUint) -> BoxedUint {
     let nlimbs = unsat_nlimbs_for_sat_nlimbs(max(f.nlimbs(), g.nlimbs()));
     let bits_precision = f.bits_precision();
+    // the unsaturated limbs are sized for the wider operand: convert back at that precision
+    let wide_precision = max(bits_precision, g.bits_precision());
 
     let inverse = inv_mod2_62(f.as_words());
     let f = BoxedUnsatInt::from_uint_widened(f, nlimbs);
@@ -127,7 +131,7 @@ pub(crate) fn gcd_vartime(f: &BoxedUint, g: &BoxedUint) -> BoxedUint {
 
     let mut f = divsteps_vartime(&mut d, &e, &f, &mut g, inverse);
     f.conditional_negate(f.is_negative());
-    f.to_uint(bits_precision)
+    f.to_uint(wide_precision).shorten(bits_precision)
 }
 
 /// Algorithm `divsteps2` to compute (δₙ, fₙ, gₙ) = divstepⁿ(δ, f, g) as described in Figure 10.1
